@@ -39,10 +39,48 @@ func refModPow2(bits uint64, k uint) uint32 {
 	return uint32(mag & (1<<k - 1))
 }
 
-func VerifH_C05_toInt32_float() {
+// verifF64Window returns a symbolic double restricted to one of 24 windows
+// that together cover all 2^64 bit patterns: |f| < 2^63 (incl. zeros and
+// subnormals), the 21 binades 2^63..2^84, everything finite above, and NaN/Inf.
+// Splitting by binade keeps each FP query small; the union is the whole type.
+func verifF64Window() float64 {
 	f := verifNondetFloat64()
+	bits := math.Float64bits(f)
+	exp := int((bits >> 52) & 0x7FF)
+	k := verifChoose(24)
+	switch {
+	case k == 0:
+		verifAssume(exp < 1023+63)
+	case k <= 21:
+		verifAssume(exp == 1023+62+k)
+	case k == 22:
+		verifAssume(exp >= 1023+84 && exp < 0x7FF)
+	default:
+		verifAssume(exp == 0x7FF)
+	}
+	return f
+}
+
+func VerifH_C05_toInt32_float() {
+	f := verifF64Window()
 	got := toInt32(Value{kind: valueNumber, value: f})
 	want := int32(refModPow2(math.Float64bits(f), 32))
 	verifCover("reached")
 	verifAssert(got == want, "ES5 9.5 ToInt32 on float64")
+}
+
+func VerifH_C05_toUint32_float() {
+	f := verifF64Window()
+	got := toUint32(Value{kind: valueNumber, value: f})
+	want := refModPow2(math.Float64bits(f), 32)
+	verifCover("reached")
+	verifAssert(got == want, "ES5 9.6 ToUint32 on float64")
+}
+
+func VerifH_C05_toUint16_float() {
+	f := verifF64Window()
+	got := toUint16(Value{kind: valueNumber, value: f})
+	want := uint16(refModPow2(math.Float64bits(f), 16))
+	verifCover("reached")
+	verifAssert(got == want, "ES5 9.7 ToUint16 on float64")
 }
